@@ -49,19 +49,35 @@ def feat_args(features):
     return ["--features", ",".join(features)] if features else []
 
 
+RE_HNAME = re.compile(r"^\s*(?:[a-z_0-9]+!\s*[({]\s*|(?:pub(?:\(crate\))? )?fn\s+)(c\d\d[a-z0-9]*_(?:q|t|x|xq)_\w+)")
+
+
 def list_harnesses(crate, features):
-    d = crate_dir(crate)
-    env = dict(ENV, CARGO_TARGET_DIR=os.path.join(KANI_DIR, f"list-{crate}-{'_'.join(features) or 'nofeat'}"))
-    cmd = ["cargo", "kani", "list", "-Z", "stubbing", "--format", "json"] + feat_args(features)
-    r = subprocess.run(cmd, cwd=d, env=env, capture_output=True, text=True)
-    if r.returncode != 0:
-        log(r.stdout[-3000:], r.stderr[-6000:])
-        raise SystemExit(2)
-    j = json.load(open(os.path.join(d, "kani-list.json")))
+    """Harness discovery from the harness crate's source: every harness is introduced either as
+    `fn <name>` or as the first argument of a harness macro, named cNN_<tier>_<family>_<instance>;
+    the fully qualified name is <module file stem>::<name>.  (`cargo kani list` would do a full
+    codegen of every harness and takes minutes.)  A name that does not exist makes Kani fail with
+    'Failed to match', which the driver reports as inconclusive, never as success."""
+    d = os.path.join(crate_dir(crate), "src")
     out = []
-    for _f, hs in j["standard-harnesses"].items():
-        out += hs
-    return sorted(out)
+    for f in sorted(os.listdir(d)):
+        if not f.endswith(".rs"):
+            continue
+        mod = f[:-3]
+        feat_gate = None
+        for line in open(os.path.join(d, f)):
+            m = re.match(r"\s*//\s*FEATURE-GATE:\s*(\w+)", line)
+            if m:
+                feat_gate = m.group(1)
+            m = re.match(r"\s*//\s*END-FEATURE-GATE", line)
+            if m:
+                feat_gate = None
+            m = RE_HNAME.match(line)
+            if m:
+                if feat_gate and feat_gate not in features:
+                    continue
+                out.append(f"{mod}::{m.group(1)}")
+    return sorted(set(out))
 
 
 def load_timings():
@@ -297,13 +313,13 @@ def match_known(known, prop, harness, desc):
     return None
 
 
-def run_property(prop, tier, jobs, only, seed):
+def run_property(prop, tier, jobs, only, seed, timeout_override=0):
     t0 = time.time()
     cfg = P.PROPS[prop]
     known = load_known()
     lim = P.TIERS[tier]
     jobs = jobs or lim["jobs"]
-    per_h_timeout = cfg.get("timeout_s", {}).get(tier, lim["harness_timeout_s"])
+    per_h_timeout = timeout_override or cfg.get("timeout_s", {}).get(tier, lim["harness_timeout_s"])
     mem_gb = lim["mem_gb"]
     timings = load_timings()
     units, gen_info = [], {}
@@ -427,7 +443,7 @@ def run_property(prop, tier, jobs, only, seed):
             "twins_refuted": len([e for e in report if e["verdict"] == "twin_ok"]),
             "functions_encoded": fns,
             "generated_from_repo": gen_info,
-            "cbmc_properties_checked": sum((e["checks"] or {}).get("total_properties", 0) for e in report),
+            "cbmc_properties_checked": sum(((e["checks"] or {}).get("total_properties") or 0) for e in report),
             "solver_wall_s_total": round(sum(e["solver_wall_s"] or 0 for e in report), 1),
             "kani_processes": shards_meta,
             "checker_cmd": "cargo kani -Z stubbing -Z unstable-options --exact --output-format terse --harness <h> (Kani 0.68.0, CBMC 6.11.0, CaDiCaL)",
@@ -485,6 +501,7 @@ def main(argv):
     ap.add_argument("--tier", default=os.environ.get("VERIF_TIER", "quick"), choices=["quick", "thorough"])
     ap.add_argument("--jobs", type=int, default=0)
     ap.add_argument("--only", default=None)
+    ap.add_argument("--timeout", type=int, default=0, help="override per-harness timeout (s)")
     ap.add_argument("--replay", default=None)
     ap.add_argument("--setup", action="store_true")
     a = ap.parse_args(argv)
@@ -497,4 +514,4 @@ def main(argv):
     if a.replay:
         return do_replay(a.prop, a.replay)
     seed = int(os.environ.get("VERIF_SEED", "0") or 0)
-    return run_property(a.prop, a.tier, a.jobs, a.only, seed)
+    return run_property(a.prop, a.tier, a.jobs, a.only, seed, a.timeout)
